@@ -36,7 +36,7 @@ def tla_set(xs):
 def gen_cfg(ctx, name, pset, sks, hzs, blen, randomized, qset=(0,), wset=(0,)):
     p = ctx.path(name)
     open(p, "w").write(
-        "SPECIFICATION Spec\nCONSTANTS\n  JAnn = {TRUE, FALSE}\n"
+        "SPECIFICATION Spec\nCONSTANTS\n  JAnn = {TRUE, FALSE}\n  TSet = {0, 1, 2, 3, 4, 5}\n"
         f"  PSet = {tla_set(pset)}\n  QSet = {tla_set(qset)}\n  WSet = {tla_set(wset)}\n  Skeletons = {tla_set(sks)}\n  Hazards = {tla_set(hzs)}\n"
         f"  BlockLen = {blen}\n  Randomized = {'TRUE' if randomized else 'FALSE'}\n"
         "INVARIANTS WellDefined Export\n")
@@ -260,11 +260,14 @@ def leg2(ctx, bdir):
         # indirect jumps in every operand shape (jmp r / [b] / [b+i*W] / [b+i*W+d] / [label+i*W] / table on the stack),
         # annotated and not; base and index are distinct long-lived registers
         ("jt", [3, 5, 8, 12, 15, 20, 30, 40], 4, 28 if q else 400, (0,), (0, 4), ["jtab", "jtabloop"]),
+        # register SWAPS: few 32-bit and many 64-bit registers (TypeIds kInt64/kUInt64/kIntPtr/kUIntPtr by type salt) with
+        # non-zero upper halves in small loops / diamonds whose bodies pin values to CL, rdx:rax, argument and return registers
+        ("swap", [3, 4], 3, 40 if q else 400, (0,), (5, 6, 7, 8, 9), ["swapl", "swapl", "swapd"]),
     ]
     if not q:
         plan.append(("vhi", [48, 64, 96, 160, 200], 6, 120, (0, 24), (0, 6), ALL_SK))
     for name, pset, blen, num, qset, wset, sks in plan:
-        cfg = gen_cfg(ctx, f"gen_{name}.cfg", pset, sks, ALL_HZ, blen, True, qset, wset)
+        cfg = gen_cfg(ctx, f"gen_{name}.cfg", pset, sks, ["fixed", "calls", "all"] if name == "swap" else ALL_HZ, blen, True, qset, wset)
         workers = 4
         r = vlib.run_tlc(ctx, GEN, cfg, workers=workers, timeout=600, heap="4g", tag=f"gen_{name}",
                          simulate=max(1, num // workers), depth=6000, seed=ctx.seed)
